@@ -37,6 +37,8 @@ def run(ctx, L, tier):
     P.f15_optional_aware(ctx, L)
     P.f16_runtime_layout(ctx, L)
     P.f3_endianness(ctx, L)
+    from . import c20
+    c20.shared_state(ctx, L)        # no state that survives from one compiled file / call to the next (module, class, closure, default argument)
     return sorted(set(o.rule for o in L.obligations))
 
 
